@@ -159,3 +159,34 @@ func HarnessC05_Lookups() {
 	}
 	vfCover("c05-lookups-done")
 }
+
+func init() { vfRegister("HarnessC05_Winner3", HarnessC05_Winner3) }
+
+// HarnessC05_Winner3: three claimants (one symbolic token each, any of them may
+// coincide, any non-left states) arriving in one descriptor; the replica that
+// visits them in order x,y,z and a replica that visits them in any other order
+// end with the same ownership, and the invariant holds.
+func HarnessC05_Winner3() {
+	es := []InstanceDesc{}
+	for i := 0; i < 3; i++ {
+		e := vfFreeEntry([]string{"x", "y", "z"}[i], vfIDs[i], 1)
+		vfAssume(e.State != LEFT)
+		es = append(es, e)
+	}
+	perms := [][]int{{0, 1, 2}, {0, 2, 1}, {1, 0, 2}, {1, 2, 0}, {2, 0, 1}, {2, 1, 0}}
+	mk := func(p []int) *Desc {
+		o := NewDesc()
+		for _, i := range p {
+			e := es[i]
+			o.Ingesters[e.Id] = InstanceDesc{Id: e.Id, Addr: e.Addr, Zone: "z", State: e.State, Timestamp: e.Timestamp, Tokens: append([]uint32(nil), e.Tokens...), RegisteredTimestamp: 7}
+		}
+		return o
+	}
+	r1, r2 := NewDesc(), NewDesc()
+	_, err1 := r1.mergeWithTime(mk(perms[0]), false, time.Unix(vfEpoch, 0))
+	_, err2 := r2.mergeWithTime(mk(perms[1+vfChoice("order", 5)]), false, time.Unix(vfEpoch, 0))
+	vfAssert(err1 == nil && err2 == nil, "C05 merges do not fail")
+	vfAssert(vfSameDesc(r1, r2), "C05 colliding claims of three instances resolve to the same owner whatever the iteration order")
+	vfAssert(vfInv(r1), "C05 invariant after resolving collisions")
+	vfCover("c05-winner3-done")
+}
